@@ -26,7 +26,7 @@ Lemma fx_take : take_blobs sym SContent fx_tbl (worker_paths fx_pack) = (fx_blob
 Proof. unfold fx_blobs, fx_t'. destruct (take_blobs sym SContent fx_tbl (worker_paths fx_pack)); reflexivity. Qed.
 
 Lemma fx_start_crash_ok : crash_ok_sym fx_w.
-Proof. apply (history_crash_ok_sym 1 fx_ops); [reflexivity | exact fx_det_history | repeat constructor]. Qed.
+Proof. apply (history_crash_ok_sym 1 fx_ops); [exact fx_det_history | repeat constructor]. Qed.
 
 Definition fx_mid : list nat := fx_pre ++ [3].
 
